@@ -4,7 +4,7 @@ patch="$1"; shift
 git -C /repo diff --quiet || { echo "/repo is dirty"; exit 2; }
 git -C /repo apply "$patch" || { echo "patch does not apply"; exit 2; }
 for p in "$@"; do
-  ( cd /verif && ./bin/check "$p" ${TIER:-quick} 2>&1 | grep -E "VIOLATION|KNOWN-FINDING|MACHINERY|done:" | cut -c1-260 )
+  ( cd /verif && ./bin/check "$p" ${TIER:-quick} 2>&1 | grep -E "VIOLATION|KNOWN-FINDING|MACHINERY|done:" | cut -c1-200 | (head -8; tail -1) )
 done
 git -C /repo checkout -- .
 git -C /repo status --short | head -3
